@@ -415,6 +415,7 @@ PROPS['C15'] = dict(
     translator=True,
     lean_modules=['FluentVerif.Props.C15', 'FluentVerif.Conc.Lockset', 'FluentVerif.Tie.Conc'],
     theorems=['FV.WsCl.C15_closers', 'FV.WsCl.C15_open_monotone', 'FV.WsCl.C15_closer_enabled', 'FV.WsCl.C15_loser',
+              'FV.WsCl.C15_closed_before_close',
               'FV.WsR.C15_done_closed_once', 'FV.WsR.C15_legacy_witness', 'FV.Tie.wsConn_lockset', 'FV.Tie.C16_one_writer'],
     suites=_WC_SUITES,
     race_suites=[('wsconn', dict(quick=12, thorough=120))],
@@ -422,7 +423,8 @@ PROPS['C15'] = dict(
     explanation="Closers model (any number of goroutines in CloseWithMsg, a reader, arbitrary interleaving): C15_closers — at most one "
                 "close frame, at most one underlying close, at most one goroutine past the state gate; C15_open_monotone — once not "
                 "open, never open again; C15_closer_enabled — a closer past the gate always has a step (deadline), so it terminates; "
-                "C15_loser — every other closer returns 'multiple close calls'. Reader model: C15_done_closed_once — the done channel "
+                "C15_loser — every other closer returns 'multiple close calls'; C15_closed_before_close — the Closed bit is set no later "
+                "than the underlying close (why a reader failing on the local close takes the healthy exit and Listen returns nil). Reader model: C15_done_closed_once — the done channel "
                 "is closed at most once under every schedule of Listen calls (C15_legacy_witness: twice without the Once, the pinned "
                 "crash). Tie: regenerated lockset graph of ws/connection.go (state accesses under stateLock, writes under writeLock). "
                 "Oracle on real runs: <= 1 proceeding Close, <= 1 close frame, exactly 1 underlying close, Closed() true and never "
